@@ -207,7 +207,7 @@ func RunSoup(args []string) int {
 	}
 	// the default nick generator: every last byte x several prefixes (bytes as U+0000..U+00FF)
 	nn := 0
-	for _, p := range []string{"", "a", "nick", "x_", "\xff\x00"} {
+	for _, p := range []string{"", "a", "nick", "x_", "\xff\x00", "bot1", "9", "user99", "z}", "0"} {
 		for b := 0; b < 256; b++ {
 			old := p + string([]byte{byte(b)})
 			neu := client.DefaultNewNick(old)
